@@ -204,7 +204,7 @@ func runHuffman(c *hx.Ctx) {
 		emitDec(0, p, "directed")
 		emitDec(1, p, "directed")
 	}
-	m := c.N(500, 12000)
+	m := c.N(500, 3000)
 	for k := 0; k < m; k++ {
 		s := h10String(c)
 		enc := mhpack.AppendHuffmanString(nil, string(s))
